@@ -139,3 +139,24 @@ End Safe.
 (* non-vacuity: a schedule with pre-emptions in which both threads return the full table *)
 Example compute_first_example : map result (threads (run (prog_compute_first [7;8;9]) [0;0;1;1;0;1;0;1;0;1;0;1;0;1;1] (init 2))) = [Some [7;8;9]; Some [7;8;9]].
 Proof. vm_compute. reflexivity. Qed.
+
+(* ---- a process-wide nesting counter (enter: counter += 1; ...; leave: counter -= 1; "outermost" = the counter is back at 0) is not a cache at all:
+        a thread that runs its whole bracket while another one is inside its own never sees 0 where it would alone ---- *)
+Inductive cinstr := CEnter | CLeave | CObserve.
+Record cthread := mkC { cpc : nat; seen : list nat }.
+Definition cprog : list cinstr := [CEnter; CLeave; CObserve].
+Definition cstep1 (n:nat) (t:cthread) : nat * cthread :=
+  match nth_error cprog (cpc t) with
+  | Some CEnter => (S n, mkC (S (cpc t)) (seen t))
+  | Some CLeave => (pred n, mkC (S (cpc t)) (seen t))
+  | Some CObserve => (n, mkC (S (cpc t)) (seen t ++ [n]))
+  | None => (n, t) end.
+Definition cstep (s:nat * list cthread) (tid:nat) : nat * list cthread :=
+  match nth_error (snd s) tid with None => s | Some t => let '(n', t') := cstep1 (fst s) t in (n', set_nth tid t' (snd s)) end.
+Definition crun (sched:list nat) (k:nat) : nat * list cthread := fold_left cstep sched (0, repeat (mkC 0 []) k).
+(* alone: the observation after the bracket is 0 *)
+Example counter_alone : map seen (snd (crun [0;0;0] 1)) = [[0]].
+Proof. vm_compute. reflexivity. Qed.
+(* thread 1 runs entirely while thread 0 is inside its bracket: it observes 1 *)
+Example global_counter_refuted : exists sched, nth_error (map seen (snd (crun sched 2))) 1 = Some [1].
+Proof. exists [0; 1;1;1; 0;0]. vm_compute. reflexivity. Qed.
